@@ -16,6 +16,7 @@ from . import common as C
 TOKENS_ALL = ["def", "class", "module", "if", "unless", "elsif", "else", "end", "do", "while", "case", "when",
               "in", "return", "self", "x", "K", "Foo", "1", "\"s\"", ":a", "=", ".", ",", "(", ")", "[", "]",
               "{", "}", "|", ":", "?", "&", "*", "<", "\n"]
+TOKENS_OPENERS = ["x", "=", ":\"", "\"", "'", ":'", "%w[", "%i(", "%q{", "#", "`", "<<~EOS", "/", "?", "#{", "a b", ":", "\n"]
 JUNK = ["end", "(", ")", "[", "{", "}", ".", ",", "|", "=", "def", "\"", ":", "&.", "::", "do"]
 
 _WORD = re.compile(r"[A-Za-z0-9_\"'@:?]$")
